@@ -119,6 +119,25 @@ class Loader:
             _LOGGER.info('adding bucket to cell: %s', bucketname)
             self.cell.add_node(self.buckets[bucketname])
 
+        # Servers under a bucket that left the cell are out of scheduling,
+        # same as removed servers: nothing stays placed on them.
+        for servername, server in six.iteritems(self.servers):
+            if server.apps and not self._in_cell(server):
+                _LOGGER.info('server left the cell: %s', servername)
+                for appname in list(server.apps):
+                    self.backend.delete(
+                        z.path.placement(servername, appname)
+                    )
+                server.remove_all()
+
+    def _in_cell(self, server):
+        """Check that the server is attached (through its buckets) to the cell.
+        """
+        node = server
+        while node.parent is not None:
+            node = node.parent
+        return node is self.cell
+
     def load_partitions(self):
         """Load partitions."""
         # Create default partition.
@@ -550,6 +569,13 @@ class Loader:
         server.remove_all()
 
         if not placed_apps:
+            return placed_apps, restored_apps
+
+        if not self._in_cell(server):
+            # Nothing can be placed outside of the cell. The scheduler would
+            # only forget where the apps were, leaving them in server.apps.
+            for appname in placed_apps:
+                self.backend.delete(z.path.placement(servername, appname))
             return placed_apps, restored_apps
 
         presence_node = z.path.server_presence(servername)
